@@ -65,7 +65,7 @@ class Unusable(Exception):
     """The position gives no move at depth 1 (terminal, or not accepted): nothing can be timed on it."""
 
 
-def timed_go(eng_path, fen, go, overhead):
+def timed_go(eng_path, fen, go, overhead, hash_mb=None):
     """One fresh process, one timed `go`: dict(elapsed s or None, bestmove line, depth-1 round trip s, last info)."""
     e = Engine(eng_path)
     try:
@@ -76,7 +76,7 @@ def timed_go(eng_path, fen, go, overhead):
             e.send("setoption name Move Overhead value %d" % overhead)
         e.send("position fen " + fen)
         e.send("isready")
-        if e.wait("readyok", 30)[0] is None:
+        if e.wait("readyok", 120)[0] is None:
             raise ToolError("engine did not answer isready (position %s)" % fen)
         t0 = time.monotonic()
         e.send("go depth 1")
@@ -85,10 +85,14 @@ def timed_go(eng_path, fen, go, overhead):
             raise Unusable(fen)
         lat = t - t0
         # the timed search starts on cold tables (the probe above must not make it cheaper)
+        if hash_mb:
+            # a table of the largest advertised size is asked for before the game: whatever that costs is over when
+            # isready has been answered, and must not be charged to the clock of the first search after it
+            e.send("setoption name Hash value %d" % hash_mb)
         e.send("ucinewgame")
         e.send("position fen " + fen)
         e.send("isready")
-        e.wait("readyok", 20)
+        e.wait("readyok", 120)
         t0 = time.monotonic()
         e.send(go)
         t, l = e.wait("bestmove", 30)          # generous watchdog: only a hang or a crash ends here
@@ -145,6 +149,13 @@ def wall_clock_cases(chk, fens):
             add(k, t, mtg=1, only_own=True); k += 1
             add(k, t, inc=5000, ovh=min(50, t // 4)); k += 1
             add(k, t, mtg=1, want_black=True); k += 1
+    # the largest advertised table, set before the game
+    n0 = len(cases)
+    add(k, 300 if chk.quick else 250); k += 1
+    if not chk.quick:
+        add(k, 500, inc=50); k += 1
+    for c in cases[n0:]:
+        c["hash"] = 1024
     # positions whose very first iteration takes seconds (quiescence explosion): the clock must still be respected
     heavy = [l.strip() for l in open(os.path.join(vlib.VERIF, "data", "explosive_heavy.txt")) if l.strip()]
     fens_save = list(fens)
@@ -166,7 +177,7 @@ def phase_wall_clock(chk, eng, fens):
             r = None
             for alt in range(6):                    # a root without a move at depth 1 is replaced by the next one
                 try:
-                    r = timed_go(eng, c["fen"], c["go"], c["ovh"])
+                    r = timed_go(eng, c["fen"], c["go"], c["ovh"], c.get("hash"))
                     break
                 except Unusable:
                     same = [f for f in fens if f.split()[1] == c["fen"].split()[1]]
